@@ -78,8 +78,11 @@ PROP = {
         "Wm.Decor.metrics_handler_once",
         "Wm.Decor.router_metrics_exact",
     ],
-    # re-proved on every run against the body of applyDelay / the Publish loops printed from the current Go source
-    "tie_theorems": ["Wm.GoDelay.extracted_applyDelay_eq_model", "Wm.GoDelay.extracted_publish_shapes"],
+    # re-proved on every run against the bodies of applyDelay, of the metrics publisher decorator's Publish and of the handler
+    # middleware, and the shapes of the two Publish loops, printed from the current Go source
+    "tie_theorems": ["Wm.GoDelay.extracted_applyDelay_eq_model", "Wm.GoDelay.extracted_publish_shapes",
+                     "Wm.GoMetrics.publish_metrics_eq", "Wm.GoMetrics.extracted_metricsPublish_eq_model",
+                     "Wm.GoMetrics.extracted_handler_eq_model"],
     "harness": "c20",
     "race": True,
     "driver": "drv_c20",
@@ -104,8 +107,9 @@ PROP = {
         "Lean 4.33.0 kernel; axioms per theorem listed under theorem_axioms (subset of propext, Classical.choice, Quot.sound)",
         "the hand-written model WmModel/Decor.lean: messages as values with an object identity, the message context as the five fields "
         "the decorators read or write, in-place mutation as returned messages (no two entries of a batch alias the same object)",
-        "extractor harness/cmd/extract/c20.go (go/ast printer of applyDelay and of statement shapes) and the interpreter "
-        "WmModel/GoDelay.lean as the semantics of those Go statements",
+        "extractor harness/cmd/extract/c20.go (go/ast printer of applyDelay, of the metrics publisher decorator's Publish, of the "
+        "handler middleware and of statement shapes) and the interpreters WmModel/GoDelay.lean, WmModel/GoMetrics.lean as the "
+        "semantics of those Go statements (incl. defer running on return and on panic, named results)",
         "harness canonical forms: a stamp is read back with Go's own time.Parse(RFC3339) / time.ParseDuration and accepted as t<sec> / "
         "d<ns> only if re-formatting gives the same string; RFC 3339 and Duration.String themselves are not modelled",
         "Prometheus client: Observe / Inc add 1 to the sample count of the labelled series; Gather reports them (library, only tested)",
@@ -131,19 +135,19 @@ PROP = {
                    "chain with exactly one stamp that is never overwritten, for/until agreement for every clock reading, one-call-or-none for "
                    "the batch, and exact-once counting of the three metrics for any number of stacked decorators and any outcome / failure "
                    "sequence. metrics_publish_once is proved under the guard 'first message object not yet marked, batch non-empty' "
-                   "(finding D15 open) with two witness theorems for the unguarded statement. The tie theorem re-interprets the body of "
-                   "applyDelay printed from the current source; 40 structural facts pin the loops, the deferred observers, the marks and the "
-                   "panicked flag; the harness validates the model on the real decorators and a real Router.",
+                   "(finding D15 open) with two witness theorems for the unguarded statement. Three tie theorems re-interpret the bodies of "
+                   "applyDelay, of the metrics publisher decorator's Publish and of the handler middleware printed from the current source; "
+                   "structural facts pin the loops, the pump, the subscriber's counting goroutine, the marks, For/Until/Message; the harness validates the model on the real decorators and a real Router.",
     "level_text": "proof",
     "level_note": "Proved for all inputs over the model (Lean 4, no sorry): transform_transparent / stack_one_call_or_none (every stack, any "
                   "depth), delay_precedence, delay_stamp_exact, delay_stamp_once, delay_for_until_agree (abstract clock), "
                   "delay_batch_one_call_or_none, metrics_subscribe_once(_run), metrics_handler_once, router_step_*/router_metrics_exact "
                   "(decorators applied k+1 times). Conditional: metrics_publish_once_partial (guard: first message object unmarked, "
                   "non-empty batch) while finding D15 is open, with republish_undercount_witness / empty_batch_witness. Tie to the code: "
-                  "generated tie theorem for applyDelay + structural facts + differential harness on the real decorators (sampled "
+                  "generated tie theorems for applyDelay, the metrics publisher decorator and the handler middleware + structural facts + differential harness on the real decorators (sampled "
                   "validation, not a proof); RFC 3339 / Duration.String, Prometheus and real time are outside the model.",
     "technique": "executable functional model with effect lists (Lean 4) + kernel-checked theorems by induction over decorator stacks, batches "
-                 "and outcome sequences; deep-embedded body of applyDelay extracted by go/ast with an interpreter and a tie theorem; structural "
+                 "and outcome sequences; deep-embedded bodies of applyDelay, metrics Publish and the handler middleware extracted by go/ast with interpreters and tie theorems; structural "
                  "facts; differential execution of the real decorators (scripted inner publisher/subscriber, private Prometheus registry, real "
                  "Router) against the model plus an independent property monitor",
 }
